@@ -464,15 +464,14 @@ structure CloneFacts (r : Nat) (h : Heap) (base : Addr) (roots : Roots) (c : Clo
   image   : ∀ x y, look x c.memo = some y → ∃ n, look x h = some n ∧
               look y c.out = some (if x = roots.globalObject then setProto ((roots.globals.map c.phi)[objectPrototypeIx]?) (n.map r c.phi) else n.map r c.phi) ∧
               ∀ c' ∈ n.refs, look c' c.memo ≠ none
-  rootsIn : ∀ a ∈ roots.globalObject :: roots.globals, look a c.memo ≠ none
+  rootsIn : ∀ a ∈ roots.globalObject :: (roots.globals ++ [roots.eval]), look a c.memo ≠ none
   gObj    : c.roots.globalObject = c.phi roots.globalObject
   globals : c.roots.globals = roots.globals.map c.phi
+  evalR   : c.roots.eval = c.phi roots.eval
   gStash  : look c.roots.globalStash c.out = some (.ost r none c.roots.globalObject) ∧ base ≤ c.roots.globalStash
   sep     : ∀ y n, (y, n) ∈ c.out → base ≤ y ∧ ∀ c' ∈ n.refs, base ≤ c'
   outLt   : ∀ y n, look y c.out = some n → y < c.next
   refsLt  : ∀ y n, (y, n) ∈ c.out → ∀ c' ∈ n.refs, c' < c.next
-  evalP   : ∃ go nm md, look roots.globalObject h = some (.obj go) ∧
-              findProp "eval" (propsMap c.phi go.props) = some ⟨nm, md, .data (.ref c.roots.eval)⟩
 
 theorem cloneRuntime_facts {r : Nat} {h : Heap} {base fuel : Nat} {roots : Roots} {c : Cloned}
     (hc : cloneRuntime r h base fuel roots = .ok c) : CloneFacts r h base roots c := by
@@ -493,32 +492,7 @@ theorem cloneRuntime_facts {r : Nat} {h : Heap} {base fuel : Nat} {roots : Roots
       | none => exact absurd hl hg1
       | some g' => exact ⟨g', rfl⟩
     have hatg : st1.at roots.globalObject = g' := at_of_look hg'
-    have hi2 : Inv base st2 := by
-      subst hst2
-      refine ⟨?_, ?_, p1.inv.inj, ?_, ?_, Nat.le_succ_of_le p1.inv.baseLe⟩
-      rotate_left 3
-      · intro y n hy c' hc'
-        cases hy with
-        | head =>
-          simp [Node.refs, optRefs] at hc'
-          subst hc'
-          rw [hatg]; exact Nat.lt_succ_of_lt (p1.inv.memoRange _ _ hg').2
-        | tail _ hy' => exact Nat.lt_succ_of_lt (p1.inv.refsLt y n hy' c' hc')
-      · intro x y hxy; have := p1.inv.memoRange x y hxy; exact ⟨this.1, Nat.lt_succ_of_lt this.2⟩
-      · intro y n hy
-        simp only [look_cons] at hy
-        by_cases hby : st1.next = y
-        · subst hby; exact ⟨p1.inv.baseLe, Nat.lt_succ_self _⟩
-        · rw [if_neg hby] at hy; have := p1.inv.outRange y n hy; exact ⟨this.1, Nat.lt_succ_of_lt this.2⟩
-      · intro y n hy
-        cases hy with
-        | head =>
-          refine ⟨p1.inv.baseLe, ?_⟩
-          intro c' hc'
-          simp [Node.refs, optRefs] at hc'
-          subst hc'
-          rw [hatg]; exact (p1.inv.memoRange _ _ hg').1
-        | tail _ hy' => exact p1.inv.sep y n hy'
+    have hi2 : Inv base st2 := inv_globalStash p1.inv hg1 hst2
     have he2 : Ext st1 st2 := by
       subst hst2
       refine ⟨fun _ _ h => h, ?_, Nat.le_succ _, fun x y h h' => by simp [h'] at h⟩
@@ -531,96 +505,92 @@ theorem cloneRuntime_facts {r : Nat} {h : Heap} {base fuel : Nat} {roots : Roots
     | fuel => simp [h3] at hc
     | ok st3 =>
       simp only [h3] at hc
-      obtain ⟨p3, hgl⟩ := forRefs_post r h base _ (cloneRef_post r h base fuel) roots.globals st2 st3 hi2 h3
-      have he13 : Ext st1 st3 := he2.trans p3.ext
-      have hg3 : look roots.globalObject st3.memo = some g' := he13.memo _ _ hg'
-      have hat3 : st3.at roots.globalObject = g' := at_of_look hg3
-      have allDone : ∀ x, look x st3.memo ≠ none → Done r h st3 x := by
-        intro x hx
-        cases hx2 : look x st2.memo with
-        | none => exact p3.done x hx hx2
-        | some z =>
-          have hx1 : look x st1.memo ≠ none := by subst hst2; simp at hx2; simp [hx2]
-          exact ((p1.done x hx1 (by simp [look])).mono p1.inv he2).mono hi2 p3.ext
-      obtain ⟨_, gn, hgm, hgh, hgo, hgr⟩ := allDone roots.globalObject (by simp [hg3])
-      rw [hg3] at hgm; cases hgm
-      -- the stash entry survives
-      have hgs3 : look st1.next st3.out = some (Node.ost r none g') := by
-        have : st1.next < st2.next := by subst hst2; exact Nat.lt_succ_self _
-        rw [p3.ext.out _ this]; subst hst2; simp [look_cons, hatg]
-      rw [hatg] at hc
-      rw [hgo] at hc
-      cases gn with
-      | obj go =>
-        simp only [Node.map] at hc
-        split at hc
-        · rename_i e heq
-          cases hc
-          have hne : st1.next ≠ g' := by have := (p1.inv.memoRange _ _ hg').2; omega
-          refine ⟨p3.inv.memoRange, p3.inv.inj, ?_, ?_, ?_, ?_, ?_, ?_, ?_, ?_, ⟨go, _, _, hgh, heq⟩⟩
-          rotate_left 7
-          · intro y n hy
-            rcases mem_updateAt hy with h' | ⟨n0, h', rfl⟩
-            · exact p3.inv.refsLt y n h'
-            · intro c' hc'
-              rcases refs_setProto _ _ c' hc' with h'' | h''
-              · cases hop : (List.map st3.at roots.globals)[objectPrototypeIx]? with
-                | none => simp [hop, optRefs] at h''
-                | some q =>
-                  simp [hop, optRefs] at h''
-                  subst h''
-                  have hq := List.mem_of_getElem? hop
-                  obtain ⟨q0, hq0, rfl⟩ := List.mem_map.mp hq
-                  cases hqm : look q0 st3.memo with
-                  | none => exact absurd hqm (hgl q0 hq0)
-                  | some z => rw [at_of_look hqm]; exact (p3.inv.memoRange _ _ hqm).2
-              · exact p3.inv.refsLt y n0 h' c' h''
-          · intro x y hxy
-            obtain ⟨y', n, hm, hh, ho, hr⟩ := allDone x (by simp [hxy])
-            rw [hxy] at hm; cases hm
-            refine ⟨n, hh, ?_, hr⟩
-            rw [look_updateAt]
-            by_cases hxg : x = roots.globalObject
-            · subst hxg
-              rw [hg3] at hxy; cases hxy
-              simp only [if_true, ho, Option.map]
-              rfl
-            · have : ¬ y = g' := fun hyg => hxg (p3.inv.inj x _ g' (by rw [hxy, hyg]) hg3)
-              rw [if_neg this, if_neg hxg, ho]; rfl
-          · intro a ha
-            cases ha with
-            | head => simp [hg3]
-            | tail _ ha' => exact hgl a ha'
-          · simp [Cloned.phi, hg3]
-          · rfl
-          · refine ⟨?_, p1.inv.baseLe⟩
-            rw [look_updateAt, if_neg hne, hgs3]
-          · intro y n hy
-            rcases mem_updateAt hy with h' | ⟨n0, h', rfl⟩
-            · exact p3.inv.sep y n h'
-            · refine ⟨(p3.inv.sep y n0 h').1, ?_⟩
-              intro c' hc'
-              rcases refs_setProto _ _ c' hc' with h'' | h''
-              · cases hop : (List.map st3.at roots.globals)[objectPrototypeIx]? with
-                | none => simp [hop, optRefs] at h''
-                | some q =>
-                  simp [hop, optRefs] at h''
-                  subst h''
-                  have hq := List.mem_of_getElem? hop
-                  obtain ⟨q0, hq0, rfl⟩ := List.mem_map.mp hq
-                  cases hqm : look q0 st3.memo with
-                  | none => exact absurd hqm (hgl q0 hq0)
-                  | some z => rw [at_of_look hqm]; exact (p3.inv.memoRange _ _ hqm).1
-              · exact (p3.inv.sep y n0 h').2 c' h''
-          · intro y n hy
-            rw [look_updateAt] at hy
-            by_cases hyg : y = g'
-            · subst hyg; exact (p3.inv.memoRange _ _ hg3).2
-            · rw [if_neg hyg] at hy; exact (p3.inv.outRange y n hy).2
-        · simp at hc
-      | dcl _ _ _ => simp [Node.map] at hc
-      | fn _ _ _ _ _ => simp [Node.map] at hc
-      | ost _ _ _ => simp [Node.map] at hc
+      obtain ⟨p3, hgl3⟩ := forRefs_post r h base _ (cloneRef_post r h base fuel) roots.globals st2 st3 hi2 h3
+      cases h4 : cloneRef r h fuel roots.eval st3 with
+      | panic => simp [h4] at hc
+      | fuel => simp [h4] at hc
+      | ok st4 =>
+        simp only [h4] at hc
+        obtain ⟨p4, hev⟩ := cloneRef_post r h base fuel _ _ _ p3.inv h4
+        have he14 : Ext st1 st4 := (he2.trans p3.ext).trans p4.ext
+        have hg4 : look roots.globalObject st4.memo = some g' := he14.memo _ _ hg'
+        have hgl : ∀ a ∈ roots.globals, look a st4.memo ≠ none := by
+          intro a ha
+          cases hm : look a st3.memo with
+          | none => exact absurd hm (hgl3 a ha)
+          | some z => simp [p4.ext.memo a z hm]
+        have allDone : ∀ x, look x st4.memo ≠ none → Done r h st4 x := by
+          intro x hx
+          cases hx3 : look x st3.memo with
+          | none => exact p4.done x hx hx3
+          | some z3 =>
+            refine Done.mono p3.inv p4.ext ?_
+            cases hx2 : look x st2.memo with
+            | none => exact p3.done x (by simp [hx3]) hx2
+            | some z =>
+              have hx1 : look x st1.memo ≠ none := by subst hst2; simp at hx2; simp [hx2]
+              exact ((p1.done x hx1 (by simp [look])).mono p1.inv he2).mono hi2 p3.ext
+        -- the stash entry survives
+        have hgs4 : look st1.next st4.out = some (Node.ost r none g') := by
+          have h12 : st1.next < st2.next := by subst hst2; exact Nat.lt_succ_self _
+          have h13 : st1.next < st3.next := Nat.lt_of_lt_of_le h12 p3.ext.next
+          rw [p4.ext.out _ h13, p3.ext.out _ h12]; subst hst2; simp [look_cons, hatg]
+        rw [hatg] at hc
+        cases hc
+        have hne : st1.next ≠ g' := by have := (p1.inv.memoRange _ _ hg').2; omega
+        have hopGe : ∀ q, (List.map st4.at roots.globals)[objectPrototypeIx]? = some q → base ≤ q ∧ q < st4.next := by
+          intro q hop
+          have hq := List.mem_of_getElem? hop
+          obtain ⟨q0, hq0, rfl⟩ := List.mem_map.mp hq
+          cases hqm : look q0 st4.memo with
+          | none => exact absurd hqm (hgl q0 hq0)
+          | some z => rw [at_of_look hqm]; exact p4.inv.memoRange _ _ hqm
+        refine ⟨p4.inv.memoRange, p4.inv.inj, ?_, ?_, ?_, rfl, rfl, ?_, ?_, ?_, ?_⟩
+        · intro x y hxy
+          obtain ⟨y', n, hm, hh, ho, hr⟩ := allDone x (by simp [hxy])
+          rw [hxy] at hm; cases hm
+          refine ⟨n, hh, ?_, hr⟩
+          rw [look_updateAt]
+          by_cases hxg : x = roots.globalObject
+          · subst hxg
+            rw [hg4] at hxy; cases hxy
+            simp only [if_true, ho, Option.map]
+            rfl
+          · have : ¬ y = g' := fun hyg => hxg (p4.inv.inj x _ g' (by rw [hxy, hyg]) hg4)
+            rw [if_neg this, if_neg hxg, ho]; rfl
+        · intro a ha
+          simp only [List.mem_cons, List.mem_append, List.mem_nil_iff, or_false] at ha
+          rcases ha with rfl | ha | rfl
+          · simp [hg4]
+          · exact hgl a ha
+          · exact hev
+        · simp [Cloned.phi, hg4]
+        · refine ⟨?_, p1.inv.baseLe⟩
+          rw [look_updateAt, if_neg hne, hgs4]
+        · intro y n hy
+          rcases mem_updateAt hy with h' | ⟨n0, h', rfl⟩
+          · exact p4.inv.sep y n h'
+          · refine ⟨(p4.inv.sep y n0 h').1, ?_⟩
+            intro c' hc'
+            rcases refs_setProto _ _ c' hc' with h'' | h''
+            · cases hop : (List.map st4.at roots.globals)[objectPrototypeIx]? with
+              | none => simp [hop, optRefs] at h''
+              | some q => simp [hop, optRefs] at h''; subst h''; exact (hopGe _ hop).1
+            · exact (p4.inv.sep y n0 h').2 c' h''
+        · intro y n hy
+          rw [look_updateAt] at hy
+          by_cases hyg : y = g'
+          · subst hyg; exact (p4.inv.memoRange _ _ hg4).2
+          · rw [if_neg hyg] at hy; exact (p4.inv.outRange y n hy).2
+        · intro y n hy
+          rcases mem_updateAt hy with h' | ⟨n0, h', rfl⟩
+          · exact p4.inv.refsLt y n h'
+          · intro c' hc'
+            rcases refs_setProto _ _ c' hc' with h'' | h''
+            · cases hop : (List.map st4.at roots.globals)[objectPrototypeIx]? with
+              | none => simp [hop, optRefs] at h''
+              | some q => simp [hop, optRefs] at h''; subst h''; exact (hopGe _ hop).2
+            · exact p4.inv.refsLt y n0 h' c' h''
 
 /-! ### fuel suffices -/
 
@@ -764,11 +734,10 @@ theorem cloneRuntime_nofuel (r : Nat) (h : Heap) (base fuel : Nat) (roots : Root
     | panic => rfl
     | ok st3 =>
       simp only
-      split
-      · rename_i heq
-        split at heq
-        · split at heq <;> cases heq
-        · cases heq
-      · rfl
+      obtain ⟨p3, _⟩ := forRefs_post r h base _ (cloneRef_post r h base fuel) roots.globals st2 st3 hi2 h3
+      cases h4 : cloneRef r h fuel roots.eval st3 with
+      | fuel => exact absurd h4 (hnf _ _ p3.inv (Nat.lt_of_le_of_lt (todo_le_length h _) hf))
+      | panic => rfl
+      | ok st4 => rfl
 
 end OttoVerif.C17
